@@ -1109,7 +1109,7 @@ Theorem select_expression fuel selector variants sc sel sc1 ops :
   exists sc2, cache_step rules sc1 sc2 /\
     ew (S fuel) (Select selector variants) sc =
     match selected rules f64_from_str sel ops variants with
-    | Some value => pw fuel value sc2
+    | Some value => pw fuel None value sc2
     | None => Done ([], add_error sc2 MissingDefault)
     end.
 Proof.
